@@ -295,7 +295,13 @@ func (lb *LoadBalancer) setupCircuitBreaker(cfg *config.Config) {
 
 func (lb *LoadBalancer) startHealthChecks() {
 	if lb.healthChecks.activeEnabled {
-		go lb.startActiveHealthChecks()
+		// The checker is itself a member of healthCheckWg: it Adds one probe per backend per tick, and an Add
+		// that may start from zero must not run concurrently with the Wait in Stop.
+		lb.healthCheckWg.Add(1)
+		go func() {
+			defer lb.healthCheckWg.Done()
+			lb.startActiveHealthChecks()
+		}()
 		logging.L().Info().Dur("interval", lb.healthChecks.activeInterval).Msg("active health checks enabled")
 	} else {
 		logging.L().Info().Msg("active health checks disabled")
@@ -323,8 +329,7 @@ func (lb *LoadBalancer) startActiveHealthChecks() {
 		select {
 		case <-lb.ctx.Done():
 			logging.L().Info().Msg("stopping active health checks")
-			lb.healthCheckWg.Wait()
-			return
+			return // Stop waits for the probes still in flight (and for this goroutine)
 		case <-ticker.C:
 			lb.checkBackendsHealth()
 		}
